@@ -494,8 +494,6 @@ Section PurePulse.
   Lemma ev_relc_trans now s1 s2 s3 : ev_relc now s1 s2 -> ev_relc now s2 s3 -> ev_relc now s1 s3.
   Proof.
     intros (d1 & He1 & Hv1 & Hd1 & Hn1 & Hc1) (d2 & He2 & Hv2 & Hd2 & Hn2 & Hc2).
-    destruct (ev_rel_trans now s1 s2 s3) as (d & He & Hv & Hd & Hn).
-    { exists d1. auto. } { exists d2. auto. }
     exists (d2 ++ d1). split; [rewrite He2, He1; now rewrite app_assoc|].
     split; [eapply valid_mono_trans; eauto|]. split; [|split].
     - intros e Hin. apply in_app_iff in Hin. destruct Hin as [Hin|Hin].
